@@ -1217,7 +1217,7 @@ void execute(const Plan &plan, Ctx &ctx)
                     multi.push_back(kv.first);
                 }
             }
-            std::set<Verdict> expected, expectedLenient; // lenient: units flaws below the client's own model do not count (C07-K1)
+            std::set<Verdict> expected, expectedLenient; // lenient: only what the importer visits in library models counts (C07-K1)
             std::string why;
             std::set<std::string> needed;
             size_t combos = 1;
@@ -1295,10 +1295,10 @@ void execute(const Plan &plan, Ctx &ctx)
                 if (undetermined) {
                     ctx.count("resolve_undetermined");
                 } else if (real && expected.count(Verdict::SAT) == 0 && !knownShape && expectedLenient.count(Verdict::SAT) != 0) {
-                    // the only reason is a units with a parser error that a LIBRARY model imports: the listed finding C07-K1
-                    // (not every units import of a library model is visited) in another guise - the run goes on
-                    ctx.violate("C07", "resolve-true-but-unsatisfiable", "flawed-units-import-of-library-model-not-visited", "resolveImports returned true although an import cannot be satisfied: " + why, true);
-                    ctx.count("resolve_true_flawed_units_import_of_library_model_not_visited");
+                    // unsatisfiable only through a units import that the importer does not visit in a library model: the listed
+                    // finding C07-K1 in another guise (the unvisited import is broken instead of merely unfetched) - the run goes on
+                    ctx.violate("C07", "resolve-true-but-unsatisfiable", "units-import-of-library-model-not-visited", "resolveImports returned true although an import cannot be satisfied: " + why, true);
+                    ctx.count("resolve_true_broken_units_import_of_library_model_not_visited");
                     exact = false;
                 } else if (real && expected.count(Verdict::SAT) == 0 && !knownShape) {
                     ctx.violate("C07", "resolve-true-but-unsatisfiable", tags, "resolveImports returned true although an import cannot be satisfied: " + why);
